@@ -141,7 +141,10 @@ add("lang", "file", "_Alignas(int(void)) int q%d;", "_Alignas(struct inc) int q%
 add("lang", "file", "struct fa%d { int n; int v[]; }; union fu%d { struct fa%d m; int k; }; struct fs%d { union fu%d u; int tail; };",
     "struct fb%d { int n; char v[]; }; struct ft%d { int k; union { struct fb%d m; long l; }; int tail; };",
     "struct fc%d { int n; int v[]; }; union fv%d { union { struct fc%d m; int j; } in; int k; }; struct fw%d { union fv%d u; };",
-    "struct fd%d { int n; int v[]; }; union fx%d { struct fd%d m; }; union fx%d fy%d[2];")
+    "struct fd%d { int n; int v[]; }; union fx%d { struct fd%d m; }; union fx%d fy%d[2];",
+    "struct fe%d { int n; int v[]; }; struct fe%d fz%d[2];", "struct ff%d { int n; int v[]; }; typedef struct ff%d fft%d; extern fft%d fq%d[];",
+    "struct fg%d { int n; int v[]; }; struct fg%d (*fpa%d)[3];", "struct fh%d { int n; int v[]; }; struct fi%d { int k; struct fh%d m; int tail; };",
+    "struct fj%d { int n; int v[]; }; struct fk%d { int k; struct fj%d arr[1]; };")
 
 # ---- unsupported features ------------------------------------------------------------------------------------
 add("unsup", "file", "_Atomic int q%d;", "_Atomic(int) q%d;", "int _Atomic q%d;", "_Complex double q%d;", "double _Complex q%d;", "long double q%d = 1.0L;", "struct __attribute__((aligned(8))) ua%d { char c; };",
